@@ -244,6 +244,7 @@ def run_property(modname, tier, seed=0):
     # every violation is replayed twice in a fresh engine before it is believed
     eng = E.Engine()
     new, knownhits = [], Counter()
+    flaky = []
     by_sig = {}
     for v in viols:
         by_sig.setdefault(v["sig"], []).append(v)
@@ -261,8 +262,12 @@ def run_property(modname, tier, seed=0):
             if any(a.sig == sig for a in again):
                 ok += 1
         if ok != 2:
-            print("MACHINERY ERROR in %s: violation %r did not reproduce (%d/2)" % (prop, sig, ok))
-            sys.exit(2)
+            # Not reproducible on both replays. The only nondeterminism the subject has that the
+            # harness cannot own is the per-map hash seed; a defect that makes behaviour depend on it
+            # (e.g. hash/equality disagreement) shows up intermittently. Such a signature is kept
+            # aside: it is never a verdict on its own unless it recurs in a longer series.
+            flaky.append((sig, v, case, ok))
+            continue
         h = hashlib.blake2b(sig.encode(), digest_size=6).hexdigest()
         path = os.path.join(replay_dir, h + ".json")
         rec = {"property": prop, "module": modname, "signature": sig, "detail": v["detail"],
@@ -275,6 +280,31 @@ def run_property(modname, tier, seed=0):
             print("KNOWN-FINDING: property=%s %s" % (prop, sig))
         else:
             new.append((sig, path, v["detail"]))
+    solid = len(new) + len(knownhits)
+    for sig, v, case, ok in flaky:
+        if solid:
+            print("INTERMITTENT (not counted): property=%s %s reproduced %d/2" % (prop, sig, ok))
+            continue
+        seen = ok
+        for _ in range(8):
+            eng.start()
+            rs = run_case(eng, case)
+            if any(a.sig == sig for a in mod.judge(case, rs)):
+                seen += 1
+        if seen >= 3:
+            h = hashlib.blake2b(sig.encode(), digest_size=6).hexdigest()
+            path = os.path.join(replay_dir, h + ".json")
+            json.dump({"property": prop, "module": modname, "signature": sig, "detail": v["detail"], "expected": v["expected"],
+                       "observed": v["observed"], "case": v["case"], "results": v["results"], "intermittent": "%d/10 replays" % seen,
+                       "noul": "\n".join(list(case.pre) + case.steps)}, open(path, "w"), indent=1, default=str)
+            if sig in known:
+                knownhits[sig] += 1
+                print("KNOWN-FINDING: property=%s %s" % (prop, sig))
+            else:
+                new.append((sig + " [intermittent %d/10: outcome depends on per-map hash seeds]" % seen, path, v["detail"]))
+        else:
+            print("MACHINERY ERROR in %s: violation %r did not reproduce (%d/10)" % (prop, sig, seen))
+            sys.exit(2)
     eng.stop()
     for sig, path, detail in new:
         print("  violation detail: %s :: %s" % (sig, detail[:300]))
